@@ -3,12 +3,23 @@
 //!       Builder::default().monotonic(mono).bins(bins).bw_adjust(|x| x * factor).build(scores, decoys),
 //!       then Estimator::posterior_error at every sweep point. The first `bins` sweep points are the
 //!       grid points `i as f64 * step + min` (so the reply starts with the implementation's own grid).
+//!   psmpep kind u32(lo) u32(hi) [n (decoy rank charge u64 hyperscore u64 delta_next u64 delta_best u32 delta_mass
+//!          u32 expmass u32 calcmass u32 isotope_error u32 average_ppm u64 poisson u32 matched_intensity_pct
+//!          matched_peaks longest_b longest_y peptide_len missed_cleavages u32 aligned_rt u32 ims
+//!          u32 delta_rt_model u32 delta_ims_model)…]
+//!       ->  fit(0/1) [n (decoy u32 discriminant_score u32 posterior_error)…]
+//!       the real `score_psms(&mut feats, tol)` (kind 0 = Tolerance::Ppm(lo,hi), 1 = Tolerance::Da(lo,hi)) on PSM
+//!       features that start, as in `Scorer`, with discriminant_score = 0.0 and posterior_error = 1.0; fit = 0
+//!       when `score_psms` returns None (then it has not touched the two fields).
 use super::Info;
 use crate::proto::{Case, Out, Rng, Tier, Toks};
+use sage_core::mass::Tolerance;
 use sage_core::ml::kde::Builder;
+use sage_core::ml::linear_discriminant::score_psms;
+use sage_core::scoring::Feature;
 use std::sync::OnceLock;
 
-pub const OPS: &[&str] = &["kde"];
+pub const OPS: &[&str] = &["kde", "psmpep"];
 pub const INFO: Info = Info {
     rule: "score samples with both classes present: overlapping / separated / tight-decoy / 1:1000 imbalance / \
            duplicated (few distinct values) / tiny (2+2) / large common offset; n 4..400 (quick) or ..3000 \
@@ -18,7 +29,10 @@ pub const INFO: Info = Info {
            each class; every stream except `gap-underflow` has, at every grid point, a sample of some class \
            within 30 bandwidths. Each case runs in a rayon pool of 1..4 threads chosen from the request \
            (perturbs the parallel reduction order). non-trivial = both classes present with >= 2 distinct scores \
-           each and bins >= 2",
+           each and bins >= 2. psmpep: synthetic PSM feature tables (a latent quality drives all 20 LDA inputs, every \
+           column noisy) through the real score_psms: ordinary overlapping sets; sets with a ladder of outstanding \
+           targets far above all decoys (PEP between 1e-300 and 1e-46, where an f32 would already be 0); sets with a \
+           target so far out that the PEP is exactly 0 (legitimate -324 floor); sets whose fit fails (a NaN feature)",
     serial: false,
 };
 
@@ -362,13 +376,167 @@ pub fn gen(rng: &mut Rng, tier: Tier, emit: &mut dyn FnMut(Case)) {
         let sw = sweep(rng, &scores, bins, 10);
         emit_case(KdeCase { scores, decoys, bins, bw: 1.0, mono: k % 2 == 1, sweep: sw }, "directed-gap", emit);
     }
+
+    gen_psm(rng, tier, emit);
+}
+
+/// one synthetic PSM: a latent quality `q` (decoys / wrong targets ~ N(0,1), correct targets ~ N(3,1),
+/// outstanding targets far above) drives every LDA input, each with its own noise
+fn psm(rng: &mut Rng, decoy: bool, q: f64) -> Feature {
+    let mut f = super::util::blank_feature();
+    let mut nz = |sd: f64| sd * gauss(rng);
+    f.label = if decoy { -1 } else { 1 };
+    f.rank = 1;
+    f.charge = 2 + (nz(1.0).abs() as u8).min(2);
+    f.hyperscore = (20.0 + 5.0 * q + nz(3.0)).max(1.0);
+    f.delta_next = (2.0 + q + nz(1.0)).max(0.0);
+    f.delta_best = nz(0.5).abs();
+    f.delta_mass = nz(3.0) as f32;
+    f.calcmass = 1200.0 + nz(200.0) as f32;
+    f.expmass = f.calcmass * (1.0 + f.delta_mass * 1e-6);
+    f.isotope_error = if nz(1.0) > 1.5 { 1.00335 } else { 0.0 };
+    f.average_ppm = nz(2.0) as f32;
+    f.poisson = -(2.0 + q + nz(1.0)).max(0.05);
+    f.matched_intensity_pct = (10.0 + 3.0 * q + nz(2.0)).clamp(0.5, 100.0) as f32;
+    f.matched_peaks = (8.0 + 2.0 * q + nz(2.0)).max(1.0).round() as u32;
+    f.longest_b = (2.0 + 0.5 * q + nz(1.0)).max(0.0).round() as u32;
+    f.longest_y = (3.0 + 0.8 * q + nz(1.0)).max(0.0).round() as u32;
+    f.peptide_len = 7 + (nz(6.0).abs() as usize).min(30);
+    f.longest_y_pct = f.longest_y as f32 / f.peptide_len as f32;
+    f.missed_cleavages = (nz(0.7).abs() as u8).min(2);
+    f.aligned_rt = (0.5 + nz(0.2)).clamp(0.0, 1.0) as f32;
+    f.rt = f.aligned_rt;
+    f.ims = 0.0;
+    f.delta_rt_model = (0.1 + nz(0.05).abs() - 0.01 * q).clamp(0.0, 1.0) as f32;
+    f.delta_ims_model = 0.0;
+    // as `Scorer` initialises them
+    f.discriminant_score = 0.0;
+    f.posterior_error = 1.0;
+    f
+}
+
+fn psm_request(kind: usize, lo: f32, hi: f32, feats: &[Feature]) -> String {
+    let mut o = Out::new();
+    o.raw("psmpep").n(kind).f32(lo).f32(hi).n(feats.len());
+    for f in feats {
+        o.b(f.label == -1).n(f.rank).n(f.charge).f64(f.hyperscore).f64(f.delta_next).f64(f.delta_best);
+        o.f32(f.delta_mass).f32(f.expmass).f32(f.calcmass).f32(f.isotope_error).f32(f.average_ppm).f64(f.poisson);
+        o.f32(f.matched_intensity_pct).n(f.matched_peaks).n(f.longest_b).n(f.longest_y).n(f.peptide_len);
+        o.n(f.missed_cleavages).f32(f.aligned_rt).f32(f.ims).f32(f.delta_rt_model).f32(f.delta_ims_model);
+    }
+    o.finish()
+}
+
+fn gen_psm(rng: &mut Rng, tier: Tier, emit: &mut dyn FnMut(Case)) {
+    let quick = tier == Tier::Quick;
+    let rounds = if quick { 10 } else { 120 };
+    for round in 0..rounds {
+        for &shape in &["psm-overlapping", "psm-outstanding", "psm-floor", "psm-fit-fails"] {
+            if shape == "psm-fit-fails" && round % 3 != 0 {
+                continue;
+            }
+            // the outstanding / floor shapes need many ordinary PSMs: a handful of far-out targets must not
+            // dominate the target covariance (LDA would turn away from the direction that separates them)
+            let far = shape == "psm-outstanding" || shape == "psm-floor";
+            let n = if far { 800 + rng.below(1200) } else { 60 + rng.below(if quick { 240 } else { 1500 }) };
+            let mut feats = Vec::new();
+            for _ in 0..n {
+                if rng.chance(1, 2) {
+                    { let q = gauss(rng); feats.push(psm(rng, true, q)); }
+                } else if rng.chance(1, 3) {
+                    { let q = gauss(rng); feats.push(psm(rng, false, q)); }
+                } else {
+                    { let q = 3.0 + gauss(rng); feats.push(psm(rng, false, q)); }
+                }
+            }
+            match shape {
+                "psm-outstanding" => {
+                    // a ladder of targets above every decoy: some of them land where the PEP is
+                    // between 1e-300 and 1e-46
+                    let top = 8.0 + 22.0 * rng.unit();
+                    let k = 4 + rng.below(8);
+                    for i in 0..k {
+                        feats.push(psm(rng, false, 4.0 + (top - 4.0) * (i + 1) as f64 / k as f64));
+                    }
+                }
+                "psm-floor" => {
+                    for _ in 0..1 {
+                        // (one target, moderately far: a more extreme one inflates the target covariance and
+                        // LDA turns away from it — the score in decoy bandwidths goes DOWN again)
+                        { let q = 44.0 + 16.0 * rng.unit(); feats.push(psm(rng, false, q)); }
+                    }
+                }
+                "psm-fit-fails" => {
+                    let i = rng.below(feats.len());
+                    if rng.chance(1, 2) {
+                        feats[i].hyperscore = f64::NAN;
+                    } else {
+                        feats[i].peptide_len = 0; // longest_y / 0
+                        feats[i].longest_y = 0;
+                    }
+                }
+                _ => {}
+            }
+            rng.shuffle(&mut feats);
+            let (kind, lo, hi) = *rng.pick(&[(0usize, -50.0f32, 50.0f32), (0, -10.0, 10.0), (1, -0.5, 0.5)]);
+            emit(Case::new(psm_request(kind, lo, hi, &feats)).tag(shape));
+        }
+    }
 }
 
 pub fn exec(op: &str, t: &mut Toks) -> Option<String> {
     match op {
         "kde" => exec_kde(t),
+        "psmpep" => exec_psmpep(t),
         _ => None,
     }
+}
+
+fn exec_psmpep(t: &mut Toks) -> Option<String> {
+    let kind = t.usize()?;
+    let lo = t.f32()?;
+    let hi = t.f32()?;
+    let mut feats = t.list(|t| {
+        let mut f = super::util::blank_feature();
+        f.label = if t.bool()? { -1 } else { 1 };
+        f.rank = t.usize()? as u32;
+        f.charge = t.usize()? as u8;
+        f.hyperscore = t.f64()?;
+        f.delta_next = t.f64()?;
+        f.delta_best = t.f64()?;
+        f.delta_mass = t.f32()?;
+        f.expmass = t.f32()?;
+        f.calcmass = t.f32()?;
+        f.isotope_error = t.f32()?;
+        f.average_ppm = t.f32()?;
+        f.poisson = t.f64()?;
+        f.matched_intensity_pct = t.f32()?;
+        f.matched_peaks = t.usize()? as u32;
+        f.longest_b = t.usize()? as u32;
+        f.longest_y = t.usize()? as u32;
+        f.peptide_len = t.usize()?;
+        f.missed_cleavages = t.usize()? as u8;
+        f.aligned_rt = t.f32()?;
+        f.rt = f.aligned_rt;
+        f.ims = t.f32()?;
+        f.delta_rt_model = t.f32()?;
+        f.delta_ims_model = t.f32()?;
+        f.longest_y_pct = f.longest_y as f32 / f.peptide_len as f32;
+        f.discriminant_score = 0.0;
+        f.posterior_error = 1.0;
+        Some(f)
+    })?;
+    if !t.done() {
+        return None;
+    }
+    let tol = if kind == 0 { Tolerance::Ppm(lo, hi) } else { Tolerance::Da(lo, hi) };
+    let fit = pool(feats.len()).install(|| score_psms(&mut feats, tol)).is_some();
+    let mut o = Out::new();
+    o.b(fit).n(feats.len());
+    for f in &feats {
+        o.b(f.label == -1).f32(f.discriminant_score).f32(f.posterior_error);
+    }
+    Some(o.finish())
 }
 
 fn exec_kde(t: &mut Toks) -> Option<String> {
